@@ -228,8 +228,28 @@ fn reference(subs: &[Value]) -> Result<Vec<(String, String)>, String> {
     Ok(out)
 }
 
-const BANNER_PREFIX: &str = "Ruschm Version ";
-const FAREWELL: &str = "exited. have a nice day.\n";
+/// What the REPL prints before reading anything and after end of input, learned from an
+/// empty session of the same binary (once per process): the property ignores both texts,
+/// so the check must not depend on their wording.
+fn banner_and_farewell(hash_seed: u64) -> Result<(String, String), String> {
+    static CAL: std::sync::OnceLock<Result<(String, String), String>> = std::sync::OnceLock::new();
+    CAL.get_or_init(|| {
+        let mut sess = Session::start(std::path::Path::new("/"), hash_seed).map_err(|e| format!("cannot start the ruschm binary: {}", e))?;
+        let banner = match sess.settle(Duration::from_secs(20)) {
+            Ok((o, _)) => String::from_utf8_lossy(&o).to_string(),
+            Err(e) => {
+                let _ = sess.finish(Duration::from_secs(5));
+                return Err(format!("cannot observe an empty session: {:?}", e));
+            }
+        };
+        let (o, _, _, timed_out) = sess.finish(Duration::from_secs(20));
+        if timed_out {
+            return Err("the REPL does not exit at end of input in an empty session".into());
+        }
+        Ok((banner, String::from_utf8_lossy(&o).to_string()))
+    })
+    .clone()
+}
 
 fn execute_f(case: Value) -> RunResult {
     let mut res = RunResult::default();
@@ -253,6 +273,13 @@ fn execute_f(case: Value) -> RunResult {
         k.contains("paren-in") || k.contains("semicolon-in")
     });
     let lit_suffix = if case_has_literals { "/literal-containing-paren-or-semicolon" } else { "" };
+    let (banner, farewell) = match banner_and_farewell(hash_seed) {
+        Ok(x) => x,
+        Err(e) => {
+            res.violation = Some(Violation { signature: "C18/repl-does-not-start".into(), detail: json!({"error": e}) });
+            return res;
+        }
+    };
     let cwd = std::path::PathBuf::from("/");
     let mut transcripts: Vec<(String, String, usize)> = vec![];
     let mut kinds_seen = String::new();
@@ -307,7 +334,7 @@ fn execute_f(case: Value) -> RunResult {
                 violation = Some(Violation { signature: "C18/repl-does-not-start".into(), detail: json!({"error": format!("{:?}", e)}) });
             }
         }
-        let banner_ok = cum_out.starts_with(BANNER_PREFIX) && cum_out.ends_with('\n') && cum_out.lines().count() == 1;
+        let banner_ok = cum_out == banner;
         if violation.is_none() && !banner_ok {
             violation = Some(Violation { signature: "C18/unexpected-output-before-input".into(), detail: json!({"stdout": cum_out, "stderr": cum_err}) });
         }
@@ -405,7 +432,7 @@ fn execute_f(case: Value) -> RunResult {
         if violation.is_none() {
             // transcript of the completed submissions; unfinished input at EOF is not judged
             let body = &cum_out[banner_len..];
-            let body = body.strip_suffix(FAREWELL).unwrap_or(body);
+            let body = body.strip_suffix(farewell.as_str()).unwrap_or(body);
             let pending_at_eof = match eof_after {
                 Some(e) => {
                     let mut pending = false;
